@@ -196,7 +196,7 @@ func Equal(a, b *pb.TypedValue) bool {
 		}
 		return string(av.BytesVal) == string(bv.BytesVal)
 	case *pb.TypedValue_DoubleVal:
-		bv, ok := b.Value.(*pb.TypedValue_DoubleVal)
+		bv, ok := b.GetValue().(*pb.TypedValue_DoubleVal)
 		if !ok {
 			return false
 		}
